@@ -16,6 +16,7 @@ import (
 	"sort"
 	"strconv"
 	"strings"
+	"time"
 
 	"github.com/gogo/protobuf/proto"
 	"github.com/pingcap/kvproto/pkg/metapb"
@@ -43,6 +44,7 @@ type Op struct {
 	RW  int64  `json:",omitempty"`
 	V   *RV    `json:",omitempty"`
 	Sz  int    `json:",omitempty"` // marshalled size, filled when run
+	Par int    `json:",omitempty"` // flush only: run it in its own goroutine and overlap the next Par ops with it
 }
 
 type Case struct {
@@ -66,12 +68,21 @@ func keyNum(b []byte) uint64 {
 	}
 	return binary.BigEndian.Uint64(b[:8])
 }
+// one shared slice of filler peers: big values without big memory (the regions only point to it)
+var fillerPeers []*metapb.Peer
+
+func filler(n int) []*metapb.Peer {
+	for len(fillerPeers) < n {
+		i := len(fillerPeers)
+		fillerPeers = append(fillerPeers, &metapb.Peer{Id: uint64(1)<<40 + uint64(i), StoreId: uint64(1)<<30 + uint64(i)})
+	}
+	return fillerPeers[:n]
+}
+
 func (v RV) region(id uint64) *metapb.Region {
 	r := &metapb.Region{Id: id, StartKey: keyOf(v.Start), EndKey: keyOf(v.End),
 		RegionEpoch: &metapb.RegionEpoch{ConfVer: v.ConfVer, Version: v.Version}}
-	for i := 0; i < v.Pad; i++ {
-		r.Peers = append(r.Peers, &metapb.Peer{Id: uint64(1)<<40 + uint64(i), StoreId: uint64(1)<<30 + uint64(i)})
-	}
+	r.Peers = filler(v.Pad)
 	return r
 }
 func coqRV(m *metapb.Region, size int) string {
@@ -362,10 +373,32 @@ func runCase(c Case) Case {
 	w := &world{base: &budgetKV{Base: inner, budget: -1}, dir: dir, maxCallbacks: 3*len(c.Ops) + 10}
 	w.openRS()
 	out := Case{Backend: c.Backend}
-	for _, o := range c.Ops {
-		o := o
+	for i := 0; i < len(c.Ops); i++ {
+		o := c.Ops[i]
 		if o.K == "crash" || o.K == "reopen" {
 			w.resetLoaded()
+		}
+		if o.K == "flush" && o.Par > 0 {
+			// overlapping operations: the flush runs in its own goroutine; a moment later (it has taken the mutex and
+			// is marshalling a large batch by then) the next Par ops are issued from this goroutine. The real code
+			// holds RegionStorage.mu across the whole flush, so they simply wait for it: the history is equivalent to
+			// the sequential one that is recorded here, whichever goroutine wins the start.
+			done := make(chan string, 1)
+			go func() { fl := o; done <- w.exec(&fl) }()
+			time.Sleep(4 * time.Millisecond)
+			var obs []string
+			var ops []Op
+			for j := 1; j <= o.Par && i+j < len(c.Ops); j++ {
+				p := c.Ops[i+j]
+				obs = append(obs, w.exec(&p))
+				ops = append(ops, p)
+			}
+			out.Ops = append(out.Ops, o)
+			out.Obs = append(out.Obs, <-done)
+			out.Ops = append(out.Ops, ops...)
+			out.Obs = append(out.Obs, obs...)
+			i += len(ops)
+			continue
 		}
 		ob := w.exec(&o)
 		out.Ops = append(out.Ops, o)
@@ -519,6 +552,37 @@ func genRegions(r *rng.R, k int) Case {
 			c.Ops = append(c.Ops, Op{K: []string{"flush", "crash", "reopen"}[r.Intn(3)]})
 		}
 	}
+	// region-storage mode: regions that are both flushed and pending, some of them deleted before the next flush
+	if rsMode && len(saved) > 0 && r.Pct(70) {
+		c.Ops = append(c.Ops, Op{K: "flush"})
+		var again []uint64
+		for k := 0; k < 1+r.Intn(8); k++ {
+			id := saved[r.Intn(len(saved))]
+			var v *RV
+			if overlap {
+				v = genRV(r, 60, big)
+			} else {
+				j := 0
+				for j = range ids {
+					if ids[j] == id {
+						break
+					}
+				}
+				v = genDisjoint(r, j, big)
+				v.ConfVer += 10
+			}
+			c.Ops = append(c.Ops, Op{K: "saveregion", ID: id, V: v})
+			again = append(again, id)
+		}
+		for _, id := range again {
+			if r.Pct(50) {
+				c.Ops = append(c.Ops, Op{K: "delregion", ID: id})
+			}
+		}
+		if r.Pct(30) {
+			c.Ops = append(c.Ops, Op{K: "loadcache"}) // prunes while some regions are flushed and pending
+		}
+	}
 	// a byte budget that forces the limit down (direct backends only)
 	if !rsMode && r.Pct(70) {
 		per := int64(30)
@@ -552,6 +616,29 @@ func genRegions(r *rng.R, k int) Case {
 	return c
 }
 
+// raceCase: a flush of a batch whose marshalling takes a long time (40 regions pointing to 60000 filler peers each)
+// overlapped with (del) a DeleteRegion of one small region of that batch, or (!del) a newer save of it and a
+// second flush. Afterwards the big regions are overwritten by small ones so that the final load stays cheap.
+func raceCase(del bool) Case {
+	c := Case{Backend: "mem"}
+	c.Ops = append(c.Ops, Op{K: "switch", P: 1})
+	const target = 10000
+	for i := 0; i < 40; i++ {
+		c.Ops = append(c.Ops, Op{K: "saveregion", ID: uint64(100 + i), V: &RV{Start: uint64(i+1) * 10, End: uint64(i+2) * 10, ConfVer: 1, Version: 1, Pad: 60000}})
+	}
+	c.Ops = append(c.Ops, Op{K: "saveregion", ID: target, V: &RV{Start: 5000, End: 5010, ConfVer: 1, Version: 1}})
+	if del {
+		c.Ops = append(c.Ops, Op{K: "flush", Par: 1}, Op{K: "delregion", ID: target})
+	} else {
+		c.Ops = append(c.Ops, Op{K: "flush", Par: 2}, Op{K: "saveregion", ID: target, V: &RV{Start: 5000, End: 5010, ConfVer: 2, Version: 1}}, Op{K: "flush"})
+	}
+	for i := 0; i < 40; i++ {
+		c.Ops = append(c.Ops, Op{K: "saveregion", ID: uint64(100 + i), V: &RV{Start: uint64(i+1) * 10, End: uint64(i+2) * 10, ConfVer: 1, Version: 1}})
+	}
+	c.Ops = append(c.Ops, Op{K: "flush"}, Op{K: "loadregions"}, Op{K: "reopen"}, Op{K: "loadregions"})
+	return c
+}
+
 // fixed replays
 func fixedCases() []Case {
 	top := uint64(math.MaxUint64)
@@ -564,8 +651,16 @@ func fixedCases() []Case {
 		wrap.Ops = append(wrap.Ops, Op{K: "saveregion", ID: top - 311 + uint64(i), V: &RV{Start: uint64(i+1) * 10, End: uint64(i+2) * 10, ConfVer: 1, Version: 1}})
 	}
 	wrap.Ops = append(wrap.Ops, Op{K: "budget", P: int64(200 * proto.Size(wrap.Ops[0].V.region(wrap.Ops[0].ID)))}, Op{K: "loadregions"}, Op{K: "loadcache"})
+	// a region that is both flushed and pending when it is deleted / pruned must be gone from leveldb too
+	v1 := &RV{Start: 10, End: 30, ConfVer: 1, Version: 1}
+	v1b := &RV{Start: 10, End: 30, ConfVer: 2, Version: 1}
+	v2 := &RV{Start: 20, End: 40, ConfVer: 1, Version: 2}
+	delBoth := Case{Backend: "mem", Ops: []Op{{K: "switch", P: 1}, {K: "saveregion", ID: 4, V: v1}, {K: "saveregion", ID: 9, V: &RV{Start: 50, End: 60, ConfVer: 1, Version: 1}},
+		{K: "flush"}, {K: "saveregion", ID: 4, V: v1b}, {K: "delregion", ID: 4}, {K: "reopen"}, {K: "loadregions"}}}
+	pruneBoth := Case{Backend: "mem", Ops: []Op{{K: "switch", P: 1}, {K: "saveregion", ID: 1, V: v1}, {K: "saveregion", ID: 2, V: v2},
+		{K: "flush"}, {K: "saveregion", ID: 1, V: v1}, {K: "loadcache"}, {K: "flush"}, {K: "loadregions"}}}
 	return []Case{
-		wrap,
+		wrap, delBoth, pruneBoth, raceCase(true), raceCase(false), raceCase(true), raceCase(false),
 		// S9 on the stores namespace and on the regions namespace
 		{Backend: "mem", Ops: []Op{{K: "savestore", ID: 1, P: 1}, {K: "savestore", ID: top, P: 2}, {K: "loadstores"}}},
 		{Backend: "mem", Ops: []Op{{K: "saveregion", ID: 1, V: one}, {K: "saveregion", ID: top, V: two}, {K: "loadregions"}}},
